@@ -84,6 +84,9 @@ Lemma scan_dense_filter c p dc m q dc' q' :
 Proof.
   unfold scan_dense. intros H q2.
   destruct (dense_loop m (dc, df0)) as [s| |]; simpl in *; try discriminate.
+  destruct (dense_empty (snd s)).
+  { injection H as Hd Hq. exists []. simpl. rewrite !app_nil_r.
+    split; [congruence|]. split; [constructor|]. congruence. }
   destruct (dense_fixup s) as [dc1| |]; simpl in *; try discriminate.
   unfold extract_dense in *.
   destruct (c_ids dc1) as [ids|]; try discriminate.
@@ -125,9 +128,11 @@ Proof.
         exists (news ++ news'), s2. repeat split; auto.
         + rewrite F1, E1, <- app_assoc. reflexivity.
         + rewrite filter_app, (filter_nodes c news E2'), Hsk. simpl. exact F3.
-      - rewrite (scan_dense_indep c p dc2 dc1 g q2).
-        destruct (scan_dense_filter c p dc1 g q1 dc' q' Hs q2) as (news & E1 & E2' & E3). rewrite E3. simpl.
-        destruct (IH (mkD p dc' wc1) (mkD p dc' wc2) q' (q2 ++ filter (nkeep c) news) s1 eq_refl H)
+      - destruct (scan_dense_filter c p dc1 g q1 dc' q' Hs q2) as (news & E1 & E2' & E3).
+        pose proof (scan_dense_indep c p dc2 dc1 g q2) as Hi. rewrite E3 in Hi.
+        destruct (scan_dense c p dc2 g q2) as [[dc2' q2']| |]; simpl in Hi; try contradiction.
+        unfold snd_eq in Hi. simpl in Hi. subst q2'. simpl.
+        destruct (IH (mkD p dc' wc1) (mkD p dc2' wc2) q' (q2 ++ filter (nkeep c) news) s1 eq_refl H)
           as (news' & s2 & F1 & F2 & F3 & F4).
         exists (news ++ news'), s2. repeat split; auto.
         + rewrite F1, E1, <- app_assoc. reflexivity.
